@@ -88,10 +88,74 @@ Print Assumptions C09_proc_resolves.
 Theorem C09_inv_reachable : forall evs, Inv (run current evs).
 Proof. exact inv_run. Qed.
 Print Assumptions C09_inv_reachable.
-(* What is missing for the one-line reading "after a completed check ... holds its outcome":
-   the composition of (1), the batch replies covering the snapshot, and (2) over the Proc steps
-   of one check is not stated as a single theorem (C09_snapshot_covers / C09_proc_resolves are
-   its step-level parts). *)
+(* (3) THE COMPOSITION, over arbitrary histories.  Let the history be
+         pre ++ CheckBegin :: mid ++ Proc fb :: post
+       where after [pre] the checker holds a check with confirmed nonce c (handed over by a poll),
+       waiter w is registered for transaction (n, h) and n < c.  [CheckBegin] takes the snapshot
+       [older c (wait ..)].  "The events [mid] complete the check for (n,h) with answer r" is the
+       predicate [complete_check n h c snapshot mid r] (model/TxMonitor.v, [drive]): scanning
+       [mid] from the snapshot -- each [BatchReply rs] (when no batch is being processed) moves
+       the asked hashes of [rs] from the snapshot into the queue, each [Proc _] pops the queue
+       head, every other event (new waiters, sends, polls, Close, Drain, the client's goroutines:
+       any interleaving) is skipped -- no batch fails, the check does not end, the element of
+       (n,h) is not processed inside [mid], and after [mid] the element (n, h, r) is at the head
+       of the queue.  The next event [Proc fb] processes it, fb being the answer of the individual
+       query (None = not asked / not needed).  If the node's answers are definite
+       ([resolves h r fb = Some o]: a receipt or NotFound in the batch -- function mocks -- or
+       null/error in the batch followed by a receipt or NotFound individually -- real JSON-RPC)
+       then, whatever [post] is, w holds exactly one outcome: o (its receipt if the node answered
+       one, "cancelled" if the node has none), or "monitor closed" if the drain ran inside [mid]. *)
+Theorem C09_complete_check_resolves : forall pre mid fb post c n h w r o,
+  let s0 := run current pre in
+  chk s0 = Handed c -> In (n, h, w) (wait s0) -> n < c ->
+  complete_check n h c (older c (wait s0)) mid r ->
+  resolves h r fb = Some o ->
+  let s' := run current (pre ++ CheckBegin :: mid ++ Proc fb :: post) in
+  exists o', In (w, o') (delivered s') /\ (forall o'', In (w, o'') (delivered s') -> o'' = o') /\
+             (o' = o \/ (In Drain mid /\ o' = OClosed)).
+Proof. exact complete_check_resolves. Qed.
+Print Assumptions C09_complete_check_resolves.
+
+(* An outcome, once delivered, stays delivered (used above for [post]). *)
+Theorem C09_delivered_stays : forall evs evs' w o,
+  In (w, o) (delivered (run current evs)) -> In (w, o) (delivered (run current (evs ++ evs'))).
+Proof. exact delivered_stays. Qed.
+Print Assumptions C09_delivered_stays.
+
+(* What starts a check -- liveness is tied to chain progress, not to time:
+   a poll that sees no new block and did not receive the new-transaction signal changes nothing,
+   so no number of such polls resolves anybody (a waiter whose non-blocking signal was lost while
+   the watch loop was busy waits for the next NEW block even if its receipt already exists) ... *)
+Theorem C09_stalled_without_new_block : forall evs polls,
+  Forall (stale_poll (last_block (run current evs))) polls ->
+  run current (evs ++ polls) = run current evs.
+Proof. exact stalled_without_new_block. Qed.
+Print Assumptions C09_stalled_without_new_block.
+(* ... concretely ("eventually, without chain progress" is refuted; the next block resolves): *)
+Theorem C09_resolution_without_new_block_refuted : forall k,
+  let pre := [Poll (Some 5) (Some 1) false; CheckBegin; Sent 1 0; WatchRaw 1 0] in
+  let s := run current (pre ++ repeat (Poll (Some 5) (Some 1) false) k) in
+  wait s = [(0, 1, 0); (0, 1, 1)] /\ delivered s = [] /\ chk s = Idle /\
+  delivered (run current ((pre ++ repeat (Poll (Some 5) (Some 1) false) k) ++
+                          [Poll (Some 6) (Some 1) false; CheckBegin; BatchReply [(1, RReceipt 1)]; Proc None]))
+  = [(0, OReceipt 1 1); (1, OReceipt 1 1)].
+Proof. exact resolution_without_new_block_refuted. Qed.
+Print Assumptions C09_resolution_without_new_block_refuted.
+(* ... what is guaranteed: the first poll of a new block with the checker idle hands a check
+   over (then C09_snapshot_covers and C09_complete_check_resolves apply) ... *)
+Theorem C09_new_block_starts_check : forall s b c nt, panicked s = false -> wl_exited s = false ->
+  chk s = Idle -> last_block s < b ->
+  let s' := step current s (Poll (Some b) (Some c) nt) in
+  chk s' = Handed c /\ wait s' = wait s /\ last_block s' = b.
+Proof. exact new_block_starts_check. Qed.
+Print Assumptions C09_new_block_starts_check.
+(* ... while a new block polled during a check in flight is consumed without a check. *)
+Theorem C09_new_block_during_check_dropped : forall s b c nt c0 snap q, panicked s = false -> wl_exited s = false ->
+  chk s = InFlight c0 snap q -> last_block s < b ->
+  let s' := step current s (Poll (Some b) (Some c) nt) in
+  chk s' = InFlight c0 snap q /\ last_block s' = b.
+Proof. exact new_block_during_check_dropped. Qed.
+Print Assumptions C09_new_block_during_check_dropped.
 
 (* Resolution, shutdown side: once Close happened, the drain completes ... *)
 Theorem C09_drain_completes : forall evs, closed (run current evs) = true ->
